@@ -373,6 +373,11 @@ def check(world: WorldA, sysm: System, labels, events, rf_addressed: int) -> Non
             verb = _verb(data)
             pops = it["pops"]
             ctx = f"{label} item#{it['id']} {verb} put at {it['put_t']:.3f}"
+            if it["put_by"] not in ("loop", "SPA:Packet handler") and not str(it["put_by"]).startswith("HARNESS"):
+                # only the endpoint (a datagram arrived) and the packet consumer (the content of a well-addressed packet) put things on the
+                # queue: a consumer that puts back what it has just taken makes one datagram leave the queue again and again
+                world.violate(PROP, "popped-twice", f"{ctx}: put on the queue by {it['put_by']}, a consumer: a datagram it had taken was put back",
+                              sig="requeued-by-consumer:" + str(it["put_by"]).split(":")[-1].replace(" ", "-"))
             res.stats["items"] = res.stats.get("items", 0) + 1
             if len(pops) > 1:
                 world.violate(PROP, "popped-twice", f"{ctx}: popped {len(pops)} times by {[p['by'] for p in pops]}")
